@@ -74,7 +74,7 @@ def valJ : TokVal → Json
   | .none => .null
   | .text s => jo [("t", cpsJ s)]
   | .int n => jo [("i", js (toString n))]
-  | .flt l => jo [("f", js (String.ofList l))]
+  | .flt l b => jo [("f", js (String.ofList l)), ("b", js (toString b.toNat))]
 
 def tokJ (t : Token) : Json := jo (kindJ t.kind ++ [("v", valJ t.val), ("p", jn t.pos)])
 
